@@ -9,6 +9,7 @@ import (
 	"os"
 	"os/exec"
 	"path/filepath"
+	"runtime"
 	"sort"
 	"strconv"
 	"strings"
@@ -41,6 +42,22 @@ import (
 //            (n1 n1 n<seed> n<workers> n<events>) subscribe/unsubscribe storm from other goroutines
 //                                                 during a stream, with permanent witnesses
 //   output : (afterRemove order dup missed wrongType leak)
+
+//
+// Kind 3 - operations that MEET: in every round <pre> subscriptions to one type are made one after
+// the other, then <k> goroutines subscribing to that same type and <rm> goroutines calling the
+// removers of the first <rm> earlier subscriptions are released together from a barrier; when all
+// those calls have RETURNED, an event of another type (a decoy), then an event of the type are
+// released; then every remover is called (again) and the event is released once more.  Nothing
+// here depends on timing: which subscriptions are in force when an event is released is a
+// function of the input, only the interleaving of the calls that met is not.
+//   input  : (n3 (round ...)), round = (x<type> n<pre> n<k> n<rm>)
+//   output : (round-result ...), round-result =
+//            ((n<typed> n<all> n<types>) (n<count> ...) (n<count> ...) (n<typed> n<all> n<types>) (n<count> ...) n<witness>)
+//            registry sizes after the meeting, per subscription of the round (the <pre> earlier ones
+//            first) how often it was invoked for the event / for the decoy, registry sizes after the
+//            removers, invocations for the event released after them, and how many of the round's
+//            three events a permanent subscribe-to-all witness saw
 
 func init() { families["callbacks"] = family{gen: genCallbacks, exec: execCallbacks} }
 
@@ -470,6 +487,126 @@ func execCallbacksStorm(in val.V) val.V {
 	return val.L(val.N(uint64(afterRemove.Load())), val.N(uint64(order.Load())), val.N(uint64(dup.Load())), val.Int(missed), val.N(uint64(wrongType.Load())), val.Int(leak))
 }
 
+// ---- kind 3 ---------------------------------------------------------------------
+
+// an event type no subscription of a round on <typ> is for
+func cbDecoy(typ string) string {
+	if typ == "" {
+		return "message"
+	}
+	return ""
+}
+
+func execCallbacksMeet(in val.V) val.V {
+	rounds := in.At(1).Items()
+	c := newCbConn()
+	defer c.finish()
+	var witness atomic.Int64
+	c.conn.SubscribeToAll(func(sse.Event) { witness.Add(1) })
+	c.connect()
+	var badMu sync.Mutex
+	bad := ""
+	outs := make([]val.V, 0, len(rounds))
+	for ri, rd := range rounds {
+		typ := rd.At(0).Str()
+		pre, k, rm := rd.At(1).Int(), rd.At(2).Int(), rd.At(3).Int()
+		if rm > pre {
+			rm = pre
+		}
+		n := pre + k
+		// the three events of the round: the decoy, the event, the event again after the removers
+		sent := [3]string{cbDecoy(typ), typ, typ}
+		data := func(ph int) string { return fmt.Sprintf("%d.%d", ri, ph) }
+		var phase atomic.Int32
+		cnt := make([]atomic.Int64, 3*n)
+		mk := func(i int) sse.EventCallback {
+			return func(e sse.Event) {
+				ph := int(phase.Load())
+				if e.Data != data(ph) || e.Type != sent[ph] {
+					badMu.Lock()
+					bad = "callback got an event that was not sent"
+					badMu.Unlock()
+					return
+				}
+				cnt[ph*n+i].Add(1)
+			}
+		}
+		subscribe := func(i int) sse.EventCallbackRemover {
+			if typ == "" && i%2 == 0 {
+				return c.conn.SubscribeMessages(mk(i)) // the unnamed type through its own entry point
+			}
+			return c.conn.SubscribeEvent(typ, mk(i))
+		}
+		removers := make([]sse.EventCallbackRemover, n)
+		for i := 0; i < pre; i++ {
+			removers[i] = subscribe(i)
+		}
+		// the meeting: everybody is released by one store and runs its call to the end
+		var ready, done sync.WaitGroup
+		var start atomic.Bool
+		meet := func(f func()) {
+			ready.Add(1)
+			done.Add(1)
+			go func() {
+				defer done.Done()
+				ready.Done()
+				for spin := 1; !start.Load(); spin++ {
+					if spin%4096 == 0 {
+						runtime.Gosched() // fewer processors than goroutines: let the others arrive
+					}
+				}
+				f()
+			}()
+		}
+		for i := 0; i < rm; i++ {
+			i := i
+			meet(func() { removers[i]() })
+		}
+		for i := pre; i < n; i++ {
+			i := i
+			meet(func() { removers[i] = subscribe(i) })
+		}
+		ready.Wait()
+		start.Store(true)
+		done.Wait()
+		// every Subscribe* call and every remover call of the round has returned
+		typed, all, types := c.conn.VerifCallbackCount()
+		w0 := witness.Load()
+		for ph := 0; ph < 2; ph++ {
+			phase.Store(int32(ph))
+			c.deliver(sent[ph], data(ph))
+		}
+		for _, rmv := range removers {
+			if rmv != nil {
+				rmv()
+			}
+		}
+		typed2, all2, types2 := c.conn.VerifCallbackCount()
+		phase.Store(2)
+		c.deliver(sent[2], data(2))
+		col := func(ph int) val.V {
+			l := make([]val.V, n)
+			for i := range l {
+				l[i] = val.N(uint64(cnt[ph*n+i].Load()))
+			}
+			return val.List(l)
+		}
+		outs = append(outs, val.L(
+			val.L(val.Int(typed), val.Int(all), val.Int(types)), col(1), col(0),
+			val.L(val.Int(typed2), val.Int(all2), val.Int(types2)), col(2),
+			val.N(uint64(witness.Load()-w0))))
+	}
+	if c.broken {
+		return val.S("Connect returned before the stream ended")
+	}
+	badMu.Lock()
+	defer badMu.Unlock()
+	if bad != "" {
+		return val.S(bad)
+	}
+	return val.List(outs)
+}
+
 // runInChild runs one case in a child process of this same binary, so that a crash of the Go
 // runtime (e.g. "fatal error: concurrent map writes", which cannot be recovered) becomes an
 // observation of that case instead of the end of the whole run.
@@ -529,6 +666,9 @@ func execCallbacks(in val.V) val.V {
 }
 
 func execCallbacksConcurrent(in val.V) val.V {
+	if in.At(0).Num() == 3 {
+		return execCallbacksMeet(in)
+	}
 	if in.At(1).Num() == 0 {
 		return execCallbacksBlock(in)
 	}
@@ -607,6 +747,9 @@ func raceInputs(r *rng.R) []val.V {
 	for i := 0; i < 40; i++ {
 		ins = append(ins, val.L(val.N(1), val.N(1), val.N(r.U64()>>1), val.Int(1+r.Intn(4)), val.Int(20+r.Intn(150))))
 	}
+	for i := 0; i < 6; i++ {
+		ins = append(ins, val.L(val.N(3), val.List(genMeetRounds(r, 20, func(string) {}))))
+	}
 	types := []string{"", "x", "X"}
 	for i := 0; i < 300; i++ {
 		l := 2 + r.Intn(25)
@@ -678,8 +821,56 @@ func execCallbacksRace(in val.V) val.V {
 
 // ---- generators -----------------------------------------------------------------
 
-func cbTail() []val.V {
-	return []val.V{val.L(val.N(3), val.S("")), val.L(val.N(3), val.S("x")), val.L(val.N(3), val.S("y"))}
+// one event of every type of the history's pool (and of one nobody subscribes to)
+func cbTail(types ...string) []val.V {
+	if len(types) == 0 {
+		types = []string{"", "x", "y"}
+	}
+	l := make([]val.V, len(types))
+	for i, t := range types {
+		l[i] = val.L(val.N(3), val.S(t))
+	}
+	return l
+}
+
+// The type pools of the random histories.  The unnamed type "" is in every pool; next to it
+// ordinary names, or names that LOOK like the unnamed type: the specification's name for it
+// ("message"), case and whitespace variants of that, a prefix/suffix of a pool member.
+var cbTypePools = [][]string{
+	{"", "x", "X", "xy"},
+	{"", "message", "Message", " message"},
+	{"", "message", "x", "messages"},
+	{"message", "", "MESSAGE", "mess"},
+}
+
+// rounds of operations that meet (kind 3); count is called with the class of every round
+func genMeetRounds(r *rng.R, n int, count func(string)) []val.V {
+	types := []string{"", "message", "x", "Message"}
+	rounds := make([]val.V, n)
+	for i := range rounds {
+		typ := types[r.Intn(len(types))]
+		if r.Intn(3) == 0 {
+			typ = fmt.Sprintf("t%d", i) // a type this connection has never seen
+		}
+		var pre, k, rm int
+		switch r.Intn(3) {
+		case 0:
+			pre, k, rm = 0, 2+r.Intn(7), 0
+			count("meet:first-subscriptions-to-a-type")
+		case 1:
+			pre = 1 + r.Intn(2)
+			rm = pre
+			k = 1 + r.Intn(3)
+			count("meet:subscriptions-and-the-last-unsubscription-of-the-type")
+		default:
+			pre = r.Intn(4)
+			rm = r.Intn(pre + 1)
+			k = r.Intn(5)
+			count("meet:any")
+		}
+		rounds[i] = val.L(val.S(typ), val.Int(pre), val.Int(k), val.Int(rm))
+	}
+	return rounds
 }
 
 // emit a history; Connect starts at a random point not after the first event
@@ -708,12 +899,16 @@ func genCallbacks(c *Ctx) {
 	// exhaustive: all histories of up to maxLen letters over
 	// {sub "", sub "x", sub all, remover 0, remover 1, remover 2, event "", event "x"}
 	// (labels cycle through 3 values), each followed by one event of every type
+	// - with the named type "x" up to maxLen, and with the named type "message" (the name the
+	// specification gives to the unnamed type; the tail then has "Message" as the third type) one shorter
 	maxLen := 6
 	if c.Thorough {
 		maxLen = 7
 	}
-	var rec func(prefix []int)
-	rec = func(prefix []int) {
+	var named, key string
+	var tail []val.V
+	var rec func(prefix []int, maxLen int)
+	rec = func(prefix []int, maxLen int) {
 		nsub := 0
 		ops := make([]val.V, 0, len(prefix)+3)
 		for _, a := range prefix {
@@ -722,7 +917,7 @@ func genCallbacks(c *Ctx) {
 				ops = append(ops, val.L(val.N(0), val.S(""), val.Int(nsub%3)))
 				nsub++
 			case 1:
-				ops = append(ops, val.L(val.N(0), val.S("x"), val.Int(nsub%3)))
+				ops = append(ops, val.L(val.N(0), val.S(named), val.Int(nsub%3)))
 				nsub++
 			case 2:
 				ops = append(ops, val.L(val.N(1), val.Int(nsub%3)))
@@ -732,10 +927,10 @@ func genCallbacks(c *Ctx) {
 			case 6:
 				ops = append(ops, val.L(val.N(3), val.S("")))
 			default:
-				ops = append(ops, val.L(val.N(3), val.S("x")))
+				ops = append(ops, val.L(val.N(3), val.S(named)))
 			}
 		}
-		emitCbHistory(c, append(ops, cbTail()...), "exhaustive")
+		emitCbHistory(c, append(ops, tail...), key)
 		if len(prefix) == maxLen {
 			return
 		}
@@ -743,18 +938,23 @@ func genCallbacks(c *Ctx) {
 			if a >= 3 && a <= 5 && a-3 >= nsub {
 				continue // a remover that does not exist yet
 			}
-			rec(append(prefix, a))
+			rec(append(prefix, a), maxLen)
 		}
 	}
-	rec(nil)
+	named, key, tail = "x", "exhaustive", cbTail()
+	rec(nil, maxLen)
+	named, key, tail = "message", "exhaustive:named-type-message", cbTail("", "message", "Message")
+	rec(nil, maxLen-1)
 
-	// random longer histories: 4 types, 3 labels, stale and repeated removers favoured
+	// random longer histories: a pool of 4 types (see cbTypePools), 3 labels, stale and repeated removers favoured
 	n, maxOps := 3000, 40
 	if c.Thorough {
 		n, maxOps = 60000, 120
 	}
-	types := []string{"", "x", "X", "xy"}
 	for i := 0; i < n; i++ {
+		pi := c.R.Intn(len(cbTypePools))
+		types := cbTypePools[pi]
+		c.Count(fmt.Sprintf("random:type-pool-%d", pi))
 		l := 1 + c.R.Intn(maxOps)
 		ops := make([]val.V, 0, l+3)
 		nsub := 0
@@ -776,7 +976,17 @@ func genCallbacks(c *Ctx) {
 				ops = append(ops, val.L(val.N(3), val.S(types[c.R.Intn(len(types))])))
 			}
 		}
-		emitCbHistory(c, append(ops, cbTail()...), "random")
+		emitCbHistory(c, append(ops, cbTail(append([]string{"y"}, types...)...)...), "random")
+	}
+
+	// operations that meet at a barrier (kind 3)
+	meets, rounds := 24, 50
+	if c.Thorough {
+		meets, rounds = 400, 60
+	}
+	for i := 0; i < meets; i++ {
+		c.Count("concurrent:meet")
+		c.Emit(val.L(val.N(3), val.List(genMeetRounds(c.R, rounds, c.Count))))
 	}
 
 	// concurrent scenarios
